@@ -1090,6 +1090,7 @@ func (fv *FV) execInstr(st *State, in ssa.Instruction, rest func(*State)) bool {
 			if cv, ok := fv.capturedCell(st, x.Bindings[0], fn); ok {
 				// the variable is captured by reference but never assigned again: its value
 				st.assume(fmt.Sprintf("(= (clo_arg0 %s) %s)", c, cv))
+				fv.assumptions["a variable captured by a closure, written once before the closure is made and only read inside it, keeps its value (the cell is not reachable from anywhere else) in "+fv.fc.Key] = true
 			} else {
 				st.assume(fmt.Sprintf("(= (clo_arg0 %s) %s)", c, binds[0].T))
 			}
